@@ -18,7 +18,7 @@ RULE = ("each case: up to 14 operations over 3 immutable and 2 mutable storage i
         "Non-trivial = an upload written in >=2 chunks or out of order, a read past the end, a failing test vector, or a slot_readv naming an absent share; distinct by whole case.")
 LEVEL_TEXT = "Differential search: the direct path is the reference for the HTTP path."
 ASSUMPTIONS = ["TLS, NURLs and the real network are not involved (the HTTP resource tree and the client marshalling are exercised in memory)",
-               "zero-length reads/writes are not generated", "collections_extended.RangeMap is provided by the shim in /verif/shims"]
+               "zero-length writes are not generated (RangeMap rejects them on both paths)", "collections_extended.RangeMap is provided by the shim in /verif/shims"]
 REQUIRED_CLASSES = ["testv-matching", "testv-size-ne-specimen", "testv-must-not-exist", "chunked-upload", "out-of-order-chunks", "read-past-end", "failing-testv", "readv-absent-share", "readv-all", "add-lease-immutable", "add-lease-mutable", "abort", "realloc-existing"]
 BUDGET = {"quick": 900, "thorough": 7200}
 SIZES = [1, 10, 33, 100, 70000]        # (the last one is larger than the 64 KiB pieces in which the HTTP server stores a request body)
@@ -32,7 +32,7 @@ def plan(tier):
 si_i = st.integers(0, 2)
 si_m = st.integers(3, 4)
 sh = st.integers(0, 3)
-rng = st.tuples(st.integers(0, 130), st.integers(1, 60)).map(list)
+rng = st.tuples(st.integers(0, 130), st.integers(1, 60) | st.sampled_from([0, 1])).map(list)      # (zero-length reads are legal in the storage API)
 op = st.one_of(
     st.tuples(st.just("alloc"), si_i, st.lists(sh, min_size=1, max_size=3, unique=True), st.integers(0, 3), st.integers(0, 2)),
     st.tuples(st.just("write"), si_i, sh, st.integers(0, 100), st.integers(1, 100), st.booleans()),
